@@ -209,8 +209,9 @@ int main_loop(int argc, char** argv, Dispatch dispatch)
     if (argc < 2) { std::fprintf(stderr, "usage: prog jobfile\n"); return 2; }
     std::ifstream in(argv[1]);
     std::string line;
+    // line buffered: a record must not be lost when a later case kills the process (attribution of crashes and hangs)
     static char obuf[1 << 16];
-    std::setvbuf(stdout, obuf, _IOFBF, sizeof obuf);
+    std::setvbuf(stdout, obuf, _IOLBF, sizeof obuf);
     while (std::getline(in, line))
     {
         if (line.empty()) continue;
